@@ -610,6 +610,8 @@ def check(ctx):
         from ..report import include
         include(ctx, "C04", skip=("C04.crossing", "C04.applicability"))
         include(ctx, "C06")
+        # the encoders see the windows the checkers are handed only if the window API itself is right (C26's window clauses)
+        include(ctx, "C26", skip=("C26.scoped",))
 
     mod = sys.modules[__name__]
     control(ctx, mod, "Sequential checker ignores the sustain count",
